@@ -446,19 +446,43 @@ def tpo_order(rep, ex: Explorer):
     # tpo2ranks: rank_function applied to the layer number, in order
     qual = "inference.preocf.tpo2ranks"
     site = fn_label(prog, qual)
-    fi = prog.function(qual)
-    ok = False
-    det = "?"
-    for loop in ast.walk(fi.node):
-        if isinstance(loop, ast.For) and isinstance(loop.iter, ast.Call) and isinstance(loop.iter.func, ast.Name) and loop.iter.func.id == "enumerate":
-            start = [k for k in loop.iter.keywords if k.arg == "start"] + list(loop.iter.args[1:])
-            tgt = loop.target
-            if isinstance(tgt, ast.Tuple) and len(tgt.elts) == 2 and isinstance(tgt.elts[0], ast.Name):
-                num = tgt.elts[0].id
-                calls = [c for c in ast.walk(loop) if isinstance(c, ast.Call) and isinstance(c.func, ast.Name) and c.func.id == fi.node.args.args[1].arg]
-                ok = bool(calls) and all(len(c.args) == 1 and isinstance(c.args[0], ast.Name) and c.args[0].id == num for c in calls) and not start
-                det = f"enumerate start={'default 0' if not start else ast.unparse(start[0])}; rank_function({ast.unparse(calls[0].args[0]) if calls else '?'})"
-    rep.check(ok, "TPO.order", site, "layer numbering", "the rank of a layer is rank_function(layer number), layers numbered from 0 in order", extracted=det, required="rank_function(i) for i, layer in enumerate(tpo)", function=site)
+    LAY = ("members", ("layers",))
+
+    def setup_t(I):
+        b = I.fresh_var("L")
+        tpo = I.alloc(HList([("each", b, LAY, PTRUE, ElemV(b, "set"))]))
+        return [tpo, Sym("rankfn")], {}
+
+    paths = ex.run(qual, setup_t, summaries=_summ(), key="t2r")
+    m = 0
+    for p in paths:
+        if p.outcome[0] != "return":
+            rep.violation("TPO.order", site, "outcome", "every total preorder is converted", extracted=f"{p.outcome[0]} {p.outcome[1]!r}"[:80], required="return", function=site)
+            continue
+        m += 1
+        d = p.state.heap.get(p.outcome[1].oid) if isinstance(p.outcome[1], Ref) else None
+        ok = False
+        det = repr(p.outcome[1])[:80]
+        if not isinstance(d, HDict):
+            raise AnalysisError(f"{site}: result is not a mapping the analysis can read: {det}")
+        det = f"{len(d.entries)} literal entries, groups: " + "; ".join(f"{e[4]!r} -> {e[5]!r} over {F.show_desc(e[2])}" for e in d.each)[:260]
+        if not d.entries and not d.sym and len(d.each) == 1:
+            _, wv, fam, g, key, val = d.each[0]
+            posd = None  # descriptor of "the position of the layer the world comes from"
+            if isinstance(fam, tuple) and fam[0] == "nested" and fam[3] == PTRUE and g == PTRUE:
+                lv = fam[1]
+                if fam[2] == LAY and fam[4] == ("members", lv):
+                    # for i, layer in enumerate(tpo): for world in layer
+                    posd = desc(LinV(F.lin_term(("pos", lv, LAY))))
+                elif fam[2] == ("members", ("range", F.lin_const(0), F.lin_term(("len", ("layers",))))) and fam[4] == ("members", ("at", ("layers",), ("lin", F.lin_term(("elem", lv, "pos"))))):
+                    # for i in range(len(tpo)): for world in tpo[i]
+                    posd = ("elem", lv, "pos")
+            if posd is None:
+                raise AnalysisError(f"{site}: iteration over the layers in a form the analysis does not read: {det}")
+            ok = isinstance(key, ElemV) and key.var == wv and isinstance(val, Sym) and val.label == ("call", "rankfn", (posd,))
+        rep.check(ok, "TPO.order", site, "layer numbering", "every world of every layer gets rank_function(position of its layer), layers numbered from 0 in order; nothing else is in the result",
+                  extracted=det, required="{world: rank_function(i) for i, layer in enumerate(tpo) for world in layer}", function=site)
+    rep.floor("tpo2ranks paths", m, 1)
 
 
 # ----------------------------------------------------------------------------------------------
@@ -1101,6 +1125,97 @@ def impacts_accept(rep, ex: Explorer):
     rep.floor("load_impacts paths", n, 2)
 
 
+def _content(state, v, depth=0):
+    """Content of a value up to object identity and binder names (dicts and lists by what they hold)."""
+    if isinstance(v, Ref) and depth < 4:
+        o = state.heap.get(v.oid)
+        if isinstance(o, HDict):
+            ents = tuple(sorted((repr(k), _content(state, x, depth + 1)) for k, x in o.entries.items()))
+            each = tuple(sorted(repr(F.subst_any((e[2], e[3], desc(e[4]), _content(state, e[5], depth + 1)), {e[1]: ("var", "_b")})) for e in o.each))
+            return ("dict", ents, each, o.sym)
+        if isinstance(o, HList):
+            segs = []
+            for sg in o.segs:
+                if sg[0] == "one":
+                    segs.append(("one", _content(state, sg[1], depth + 1)))
+                elif sg[0] == "each":
+                    segs.append(F.subst_any(("each", sg[2], sg[3], _content(state, sg[4], depth + 1)), {sg[1]: ("var", "_b")}))
+                else:
+                    segs.append(sg)
+            return ("set" if o.is_set else "list", tuple(segs))
+        return ("ref", v.oid)
+    return desc(v)
+
+
+def pickled_state(rep, ex: Explorer):
+    """STATE.pickled on PreOCF.__getstate__ / __setstate__: the state handed to pickle holds every attribute of the object
+    with its full content (ranks of every world, computed or not; impacts; metadata; signature) - only the solver handles
+    that save_ocf detaches may be missing - and restoring a state puts every entry of it back."""
+    DETACHED = {"_optimizer", "_csp"}
+    # --- __getstate__
+    qual = f"{PO}.__getstate__"
+    site = fn_label(ex.prog, qual)
+    held = {}
+
+    def setup(I):
+        b = I.fresh_var("w")
+        ranks = I.alloc(HDict(each=[("each", b, WORLDS, PTRUE, ElemV(b, "key"), Sym(("storedrank", b), "optint"))]))
+        imp = I.alloc(HList([("sym", "IMPACTS")]))
+        meta = I.alloc(HDict(sym="METADATA"))
+        attrs = {"ranks": ranks, "signature": Sym("SIG"), "_metadata": meta, "_impacts": imp, "conditionals": Sym("CONDS"), "_z_partition": Sym("ZPART"),
+                 "_optimizer": Sym("OPT"), "_csp": Sym("CSP")}
+        s_ = I.alloc(HObj(ZP, dict(attrs)))
+        held["s"], held["attrs"] = s_, attrs
+        return [s_], {}
+
+    paths = ex.run(qual, setup, summaries=_summ(), key="getstate")
+    n = 0
+    for p in paths:
+        if p.outcome[0] != "return":
+            rep.violation("STATE.pickled", site, "outcome", "the state of every ranking object can be taken", extracted=f"{p.outcome[0]} {p.outcome[1]!r}"[:80], required="return", function=site)
+            continue
+        rv = p.outcome[1]
+        d = p.state.heap.get(rv.oid) if isinstance(rv, Ref) else None
+        if not isinstance(d, HDict):
+            raise AnalysisError(f"{site}: the returned state is not a mapping the analysis can read: {rv!r}")
+        for name, orig in held["attrs"].items():
+            if name in DETACHED and name not in d.entries:
+                continue
+            n += 1
+            if name not in d.entries:
+                rep.violation("STATE.pickled", site, f"attribute {name}", "the pickled state holds every attribute of the object", extracted="missing", required=name, function=site)
+                continue
+            same = _content(p.state, d.entries[name]) == _content(p.state, orig)
+            rep.check(same, "STATE.pickled", site, f"attribute {name}", "the pickled state holds every attribute with its full content (all worlds, ranked or not)",
+                      extracted=str(_content(p.state, d.entries[name]))[:160], required=str(_content(p.state, orig))[:160], function=site)
+        # taking the state leaves the object as it was
+        obj = p.state.heap.get(held["s"].oid)
+        unchanged = isinstance(obj, HObj) and all(_content(p.state, obj.attrs.get(k)) == _content(p.state, v) for k, v in held["attrs"].items())
+        rep.check(unchanged, "STATE.pickled", site, "object untouched", "taking the state does not change the object", extracted="changed" if not unchanged else "unchanged", required="unchanged", function=site)
+    # --- __setstate__
+    qual2 = f"{PO}.__setstate__"
+    site2 = fn_label(ex.prog, qual2)
+
+    def setup2(I):
+        st = I.alloc(HDict(entries={"ranks": Sym("RANKS"), "signature": Sym("SIG"), "_impacts": Sym("IMP"), "_metadata": Sym("META")}))
+        s_ = I.alloc(HObj(ZP, {}))
+        held["s2"] = s_
+        return [s_, st], {}
+
+    paths = ex.run(qual2, setup2, summaries=_summ(), key="setstate")
+    for p in paths:
+        if p.outcome[0] != "return":
+            rep.violation("STATE.pickled", site2, "outcome", "every state can be restored", extracted=f"{p.outcome[0]} {p.outcome[1]!r}"[:80], required="return", function=site2)
+            continue
+        obj = p.state.heap.get(held["s2"].oid)
+        for name, want in (("ranks", Sym("RANKS")), ("signature", Sym("SIG")), ("_impacts", Sym("IMP")), ("_metadata", Sym("META"))):
+            n += 1
+            got = obj.attrs.get(name) if isinstance(obj, HObj) else None
+            rep.check(got == want, "STATE.pickled", site2, f"attribute {name}", "restoring a state puts every entry of it back on the object", extracted=repr(got), required=repr(want), function=site2)
+    rep.floor("pickled attributes compared", n, 8)
+    return {"pickled_attrs": n}
+
+
 def _always_raises(body):
     return bool(body) and isinstance(body[-1], ast.Raise)
 
@@ -1125,6 +1240,7 @@ def format_agree(rep, ex: Explorer):
 
             lpaths = ex.run(loader, setup_l, summaries=_summ(), key=f"load-{what}-{name}")
             accepts = set()
+            unreliable = {}
             for p in lpaths:
                 attempts = [(ev.kind, ev.how) for ev, Q in iter_events(p.events) if ev.kind in ("persist.load", "persist.loaded")]
                 if p.outcome[0] == "return" and any(k == "persist.loaded" for k, h in attempts):
@@ -1139,6 +1255,14 @@ def format_agree(rep, ex: Explorer):
                     earlier = tried[:-1]
                     if all(("json" if h.startswith("json") else "pickle") != fmt_ok for h in earlier):
                         accepts.add(fmt_ok)
+                # a failure mode of reading the file as one format that leaves the loader before the other format was tried:
+                # the other format is not reliably accepted under this name
+                if p.outcome[0] == "raise" and isinstance(getattr(p.outcome[1], "origin", None), tuple) and p.outcome[1].origin and str(p.outcome[1].origin[0]).split(".")[0] in ("json", "pickle"):
+                    tried_fmts = {("json" if h.startswith("json") else "pickle") for h in tried}
+                    for other in {"json", "pickle"} - tried_fmts:
+                        unreliable.setdefault(other, f"{p.outcome[1].cls} of {p.outcome[1].origin[0]} is not handled")
+            fallback = {f: why for f, why in unreliable.items() if f in accepts}
+            accepts -= set(fallback)
             for fmt in ("json", "pickle"):
                 def setup_s(I, name=name, fmt=fmt):
                     bb = make_belief_base(I)
@@ -1164,5 +1288,5 @@ def format_agree(rep, ex: Explorer):
                 n += 1
                 ok = wrote <= accepts
                 rep.check(ok, "FORMAT.agree", site_s, f"{what}: name {name!r}, fmt={fmt}", f"writes {sorted(wrote)}; the loader accepts {sorted(accepts)} for that name",
-                          extracted=f"saved as {sorted(wrote)}, loader reads {sorted(accepts)}", required="saved format ∈ formats the loader accepts", function=site_l)
+                          extracted=f"saved as {sorted(wrote)}, loader reads {sorted(accepts)}" + "".join(f"; {f} only sometimes: {why}" for f, why in fallback.items()), required="saved format ∈ formats the loader accepts", function=site_l)
     rep.floor("FORMAT.agree table rows", n, 16)
